@@ -434,7 +434,15 @@ type FuncContract struct {
 	Line     int
 }
 
+type GuardSpec struct {
+	Pkg, Type, Mutex string
+	Fields         map[string]bool
+}
+
 type ContractSet struct {
+	Guards     []*GuardSpec
+	LockExempt map[string]bool // function keys
+	LockEntry  map[string]bool // entry points called by the dispatcher without the mutex
 	DefaultNonNil map[string][]string // package path -> parameter names assumed/required non-nil in every contracted function
 	TypeInvs map[string][]*Clause // "pkgpath.TypeName" -> invariants over "self"
 	Specs  map[string]*SpecFunc
@@ -447,7 +455,7 @@ type ContractSet struct {
 var clauseKeywords = map[string]bool{
 	"spec": true, "rec": true, "axiom": true, "lemma": true, "func": true, "props": true,
 	"requires": true, "ensures": true, "loop": true, "assigns": true, "pure": true, "sweep": true,
-	"trusted": true, "end": true, "at": true, "typeinv": true, "unchecked": true, "default-nonnil": true, "recovers": true, "panics": true, "measure": true, "use": true, "opt": true,
+	"trusted": true, "end": true, "at": true, "typeinv": true, "unchecked": true, "default-nonnil": true, "guarded": true, "lock-exempt": true, "lock-entry": true, "recovers": true, "panics": true, "measure": true, "use": true, "opt": true,
 }
 
 func parseParams(s string) ([]SpecParam, error) {
@@ -598,6 +606,35 @@ func (cs *ContractSet) ParseContractText(pkgPath, file, text string) error {
 				lm.Body = e
 				cs.Lemmas = append(cs.Lemmas, lm)
 			}
+		case "guarded":
+			// guarded Type mutexField: field field ...
+			k := strings.Index(rc.rest, ":")
+			if k < 0 {
+				return errf(fmt.Errorf("bad guarded clause"))
+			}
+			hd := strings.Fields(rc.rest[:k])
+			if len(hd) != 2 {
+				return errf(fmt.Errorf("guarded: want 'Type mutexField: fields'"))
+			}
+			g := &GuardSpec{Pkg: pkgPath, Type: hd[0], Mutex: hd[1], Fields: map[string]bool{}}
+			for _, f := range strings.Fields(rc.rest[k+1:]) {
+				g.Fields[f] = true
+			}
+			cs.Guards = append(cs.Guards, g)
+		case "lock-entry":
+			if cs.LockEntry == nil {
+				cs.LockEntry = map[string]bool{}
+			}
+			for _, f := range strings.Fields(rc.rest) {
+				cs.LockEntry[pkgPath+"."+f] = true
+			}
+		case "lock-exempt":
+			if cs.LockExempt == nil {
+				cs.LockExempt = map[string]bool{}
+			}
+			for _, f := range strings.Fields(rc.rest) {
+				cs.LockExempt[pkgPath+"."+f] = true
+			}
 		case "default-nonnil":
 			if cs.DefaultNonNil == nil {
 				cs.DefaultNonNil = map[string][]string{}
@@ -622,8 +659,12 @@ func (cs *ContractSet) ParseContractText(pkgPath, file, text string) error {
 			cs.TypeInvs[pkgPath+"."+tname] = append(cs.TypeInvs[pkgPath+"."+tname], &Clause{Kind: "typeinv", Tag: tag, Props: props, Src: strings.TrimSpace(rc.rest[k+1:]), Expr: e, File: file, Line: rc.line})
 		case "func":
 			name := strings.TrimSpace(rc.rest)
-			cur = &FuncContract{Pkg: pkgPath, Name: name, File: file, Line: rc.line, Extra: map[string][]string{}}
-			cs.Funcs[pkgPath+"."+name] = cur
+			if prev, ok := cs.Funcs[pkgPath+"."+name]; ok {
+				cur = prev // several blocks (possibly in several files) for one function are merged
+			} else {
+				cur = &FuncContract{Pkg: pkgPath, Name: name, File: file, Line: rc.line, Extra: map[string][]string{}}
+				cs.Funcs[pkgPath+"."+name] = cur
+			}
 		case "end":
 			cur = nil
 		default:
@@ -632,7 +673,11 @@ func (cs *ContractSet) ParseContractText(pkgPath, file, text string) error {
 			}
 			switch rc.kw {
 			case "props":
-				cur.Props = strings.Fields(rc.rest)
+				for _, f := range strings.Fields(rc.rest) {
+					if !hasProp(cur.Props, f) {
+						cur.Props = append(cur.Props, f)
+					}
+				}
 			case "pure":
 				cur.Pure = true
 			case "sweep":
